@@ -15,7 +15,8 @@ from .simcmp import normalize_spec, params_fnodes
 _BASE = dict(ifuns=False, undefined=False)
 
 PROFILES: Dict[str, gen.Profile] = {
-    "grounder": gen.Profile(**_BASE),
+    # static fluents with parameters (pruned on by the grounder), several preconditions over parameters
+    "grounder": gen.Profile(static_p=0.5, max_fluents=5, max_pre=3, max_eff=2, **_BASE),
     "cond_effects": gen.Profile(**_BASE),
     "disjunctive": gen.Profile(invariants=False, **_BASE),
     "negative": gen.Profile(**_BASE),
